@@ -9,6 +9,8 @@ edits which only change the *orientation* of a construct cannot change a verdict
   N3  single comparisons: a literal constant goes to the right (`0 == n` -> `n == 0`, `0 < n` -> `n > 0`);
       between two non-constant operands only `<` / `<=` are used (`a > b` -> `b < a`)
   N4  `n = n + 1` / `n = n - 1` (plain name, numeric literal) -> `n += 1` / `n -= 1`
+  N5  statement-level logging / print / warnings.warn calls are dropped (trusted: they do not change state)
+  N6  `x: T = v` -> `x = v`; a bare declaration `x: T` is dropped
 
 Line numbers are kept (reports still point at the source line); printed constructs show the normal form.
 `==` / `!=` between two non-constant operands keep their source order: `sa/pattern.py` matches them commutatively."""
@@ -56,7 +58,48 @@ def _positive(t):
     return ast.copy_location(ast.Compare(left=t.left, ops=[_NEG[type(t.ops[0])]()], comparators=t.comparators), t)
 
 
+_LOG_RECEIVERS = ("logger", "log", "logging", "_logger", "_log", "LOGGER", "LOG", "self.logger", "self._logger", "self.log", "warnings")
+_LOG_METHODS = {"debug", "info", "warning", "warn", "error", "exception", "critical", "log"}
+
+
+def _is_log_call(e) -> bool:
+    if not isinstance(e, ast.Call):
+        return False
+    f = e.func
+    if isinstance(f, ast.Name) and f.id == "print":
+        return True
+    if isinstance(f, ast.Attribute) and f.attr in _LOG_METHODS:
+        try:
+            recv = ast.unparse(f.value)
+        except Exception:
+            return False
+        return recv in _LOG_RECEIVERS or recv.startswith("logging.") or recv.startswith("__import__('logging')") or recv.endswith("getLogger(__name__)")
+    return False
+
+
 class Normalise(ast.NodeTransformer):
+    def generic_visit(self, node):
+        node = super().generic_visit(node)
+        for f in ("body", "orelse", "finalbody"):
+            lst = getattr(node, f, None)
+            if isinstance(lst, list) and f == "body" and not lst and isinstance(node, (ast.FunctionDef, ast.AsyncFunctionDef, ast.For, ast.AsyncFor, ast.While, ast.If,
+                                                                                        ast.With, ast.AsyncWith, ast.Try, ast.ExceptHandler, ast.ClassDef)):
+                lst.append(ast.copy_location(ast.Pass(), node))
+        return node
+
+    def visit_Expr(self, n):
+        # N5: logging / print statements are not part of the analysed behaviour
+        if _is_log_call(n.value):
+            return None
+        return self.generic_visit(n)
+
+    def visit_AnnAssign(self, n):
+        # N6: `x: T = v` -> `x = v`; a bare declaration `x: T` disappears
+        self.generic_visit(n)
+        if n.value is None:
+            return None
+        return self.visit_Assign(ast.copy_location(ast.Assign(targets=[n.target], value=n.value), n))
+
     def visit_If(self, n):
         self.generic_visit(n)
         n.test = _test(n.test)
